@@ -4,6 +4,7 @@ import Drv.Agg
 import Drv.Misc
 import Drv.Conn
 import Drv.Table
+import Drv.TableOps
 /-! Line-protocol driver: `driver <model>` reads operations on stdin, prints the model's answers. Core-only. -/
 def main (args : List String) : IO UInt32 := do
   let h ← IO.getStdin
@@ -11,6 +12,7 @@ def main (args : List String) : IO UInt32 := do
   | "dq" :: r => Drv.DQ.run r; pure 0
   | "bw" :: r => Drv.BW.run r; pure 0
   | "agg" :: r => Drv.Agg.run r; pure 0
+  | "tableops" :: r => Drv.TableOps.run r; pure 0
   | "table" :: r => Drv.Table.run r; pure 0
   | "dest" :: r => Drv.Conn.run r; pure 0
   | ["fmt"] => Drv.Misc.lines h Drv.Misc.fmt; pure 0
